@@ -23,7 +23,17 @@ def doc_operation(doc, ep):
     """the operation object of the document this endpoint came from (by operationId), its path template and method"""
     for path, item in doc["paths"].items():
         for method, o in item.items():
-            if isinstance(o, dict) and o.get("operationId") == ep.name:
+            if not isinstance(o, dict) or method == "parameters":
+                continue
+            name = o.get("operationId")
+            if name is None:
+                # the documented naming rule for operations without operationId: <method>_<path with / -> _ and braces removed>
+                clean = path.replace("{", "").replace("}", "").replace("/", "_").strip("_") if path.strip("/") else ""
+                clean = path.replace("{", "").replace("}", "").replace("/", "_")
+                clean = clean[1:] if clean.startswith("_") else clean
+                clean = clean[:-1] if clean.endswith("_") else clean
+                name = f"{method}_{clean}"
+            if name == ep.name and ep.method.lower() == method.lower():
                 return path, method, o, item
     return None
 
@@ -81,6 +91,10 @@ def work(args):
             for module, tag, ep in eps:
                 found = doc_operation(doc, ep)
                 rb = found[2].get("requestBody") if found else None
+                hops = 0
+                while rb and "$ref" in rb and hops < 10:
+                    rb = (doc.get("components", {}).get("requestBodies", {}) or {}).get(rb["$ref"].rsplit("/", 1)[1])
+                    hops += 1
                 if not rb or "content" not in rb:
                     continue
                 for ct, mt in rb["content"].items():
@@ -107,6 +121,9 @@ def work(args):
                             j = inst.model_instance(cname, 0, True)
                         except Exception:
                             break
+                        declared_names = {n for n, _, _ in ab.class_props(m)}
+                        # str() of a list / dict (the text an untyped additional property is sent as) is not modelled: keep scalars only
+                        j = {k: v for k, v in j.items() if k in declared_names or not isinstance(v, (list, dict))}
                         absprop.strings_in(j, strings)
                         mp_ops.append({"op": "multipart", "cls": cname, "data": absprop.to_runner_json(j)})
                         mp_meta.append((cname, j))
@@ -222,6 +239,10 @@ def expectation(doc, ep, vec):
             except ValueError:
                 exp.setdefault("unspecified_" + key, []).append(p.name)     # e.g. an array of objects in the query: the document does not fix its text form
     rb = o.get("requestBody")
+    hops = 0
+    while rb and "$ref" in rb and hops < 10:      # the document's own component, through chains of references
+        rb = (doc.get("components", {}).get("requestBodies", {}) or {}).get(rb["$ref"].rsplit("/", 1)[1])
+        hops += 1
     if rb and "content" in rb and len(rb["content"]) == 1 and "body" in vec:
         (ct, _), = rb["content"].items()
         exp["content_type"] = ct
